@@ -28,7 +28,7 @@ def analyse(pid: str, prog: Program, tier: str) -> Cx:
     from .types import SEED_DEPENDENTS
     for sp in cx.seed_problems:
         rows = [r for r in getattr(cx.ti, 'bad_seed_rows', []) if f"{r[0]}.{r[1]}:" in sp]
-        if any(pid in SEED_DEPENDENTS.get(r, []) for r in rows) or not rows:
+        if any(pid in SEED_DEPENDENTS.get(getattr(cx.ti, 'seed_alias', {}).get(r, r), []) for r in rows) or not rows:
             cx.inconclusive('ENGINE', 'container seed table', sp)
         else:
             cx.note(f"(not relevant to {pid}) {sp}")
